@@ -11,6 +11,8 @@ CONSTANTS
   MaxFaults = 1
   SubsInit = {FALSE}
   MaySubscribe = FALSE
+  RestoreReqs = {2}
+  Loose = FALSE
   Guarded = TRUE
 PROPERTY EveryCallReturns
 CHECK_DEADLOCK FALSE
